@@ -82,7 +82,7 @@ func parseHarnessFile(path string) (*HarnessFile, error) {
 		if fd.Doc != nil {
 			for _, c := range fd.Doc.List {
 				if m := annRe.FindStringSubmatch(strings.TrimSpace(c.Text)); m != nil {
-					if m[1] == "redirect" || m[1] == "bound" || m[1] == "stub" || m[1] == "assume" || m[1] == "encodes" {
+					if m[1] == "redirect" || m[1] == "shadow" || m[1] == "bound" || m[1] == "stub" || m[1] == "assume" || m[1] == "encodes" {
 						sp.Ann[m[1]] = append(sp.Ann[m[1]], strings.TrimSpace(m[2]))
 					} else {
 						sp.Ann[m[1]] = []string{strings.TrimSpace(m[2])}
@@ -184,6 +184,87 @@ type Loaded struct {
 	overlay map[string][]byte
 }
 
+// shadowOverlays implements //vf:shadow <func>: the named function or method of the harness'
+// package ("name", "T.name" or "(*T).name") is renamed to <name>VfReal in an overlay copy of
+// the file that declares it (regenerated from /repo's current source on every run), so that
+// the harness can supply a stub of the same name. The stub is then used both by the
+// symbolic run and by the native replay binary. Every shadow is listed as a stub in the
+// evidence.
+func shadowOverlays(files []*HarnessFile) (map[string][]byte, error) {
+	want := map[string]map[string]bool{} // pkgDir -> names
+	for _, hf := range files {
+		for _, sp := range hf.Specs {
+			for _, n := range sp.Ann["shadow"] {
+				if want[hf.PkgDir] == nil {
+					want[hf.PkgDir] = map[string]bool{}
+				}
+				want[hf.PkgDir][strings.TrimSpace(n)] = true
+			}
+		}
+	}
+	res := map[string][]byte{}
+	for dir, names := range want {
+		ents, err := os.ReadDir(filepath.Join(repoDir, dir))
+		if err != nil {
+			return nil, err
+		}
+		found := map[string]bool{}
+		for _, e := range ents {
+			if e.IsDir() || !strings.HasSuffix(e.Name(), ".go") || strings.HasSuffix(e.Name(), "_test.go") {
+				continue
+			}
+			path := filepath.Join(repoDir, dir, e.Name())
+			src, err := os.ReadFile(path)
+			if err != nil {
+				return nil, err
+			}
+			fset := token.NewFileSet()
+			f, err := parser.ParseFile(fset, path, src, parser.SkipObjectResolution)
+			if err != nil {
+				return nil, err
+			}
+			type edit struct{ off int }
+			var edits []int
+			for _, d := range f.Decls {
+				fd, ok := d.(*ast.FuncDecl)
+				if !ok {
+					continue
+				}
+				full := fd.Name.Name
+				if fd.Recv != nil && len(fd.Recv.List) == 1 {
+					switch t := fd.Recv.List[0].Type.(type) {
+					case *ast.StarExpr:
+						if id, ok := t.X.(*ast.Ident); ok {
+							full = "(*" + id.Name + ")." + fd.Name.Name
+						}
+					case *ast.Ident:
+						full = t.Name + "." + fd.Name.Name
+					}
+				}
+				if names[full] {
+					found[full] = true
+					edits = append(edits, fset.Position(fd.Name.End()).Offset)
+				}
+			}
+			if len(edits) == 0 {
+				continue
+			}
+			sort.Sort(sort.Reverse(sort.IntSlice(edits)))
+			out := append([]byte(nil), src...)
+			for _, off := range edits {
+				out = append(out[:off], append([]byte("VfReal"), out[off:]...)...)
+			}
+			res[path] = out
+		}
+		for n := range names {
+			if !found[n] {
+				return nil, fmt.Errorf("BUILD: //vf:shadow %s: no such function in %s", n, dir)
+			}
+		}
+	}
+	return res, nil
+}
+
 func modelOverlay(ov map[string][]byte) {
 	ov[filepath.Join(repoDir, "internal/vfmodel/model.go")] = []byte(modelSource)
 }
@@ -203,6 +284,13 @@ func loadProgram(files []*HarnessFile, verbose bool) (*Loaded, error) {
 		ov[filepath.Join(repoDir, d, "zz_vf_rt.go")] = []byte(rtSource(n))
 	}
 	modelOverlay(ov)
+	sh, err := shadowOverlays(files)
+	if err != nil {
+		return nil, err
+	}
+	for k, v := range sh {
+		ov[k] = v
+	}
 	var patterns []string
 	for d := range dirs {
 		patterns = append(patterns, "./"+d)
